@@ -37,6 +37,32 @@ use std::{
 use time::{format_description, Date, Duration, OffsetDateTime, Time};
 
 mod builder;
+
+/// Verification hook (cargo feature `verif-hooks`, off by default): a
+/// process-wide clock override consulted by [`RollingFileAppender`] instead of
+/// the system clock.
+#[cfg(feature = "verif-hooks")]
+pub mod verif {
+    use std::sync::atomic::{AtomicUsize, Ordering};
+    use time::OffsetDateTime;
+
+    static CLOCK: AtomicUsize = AtomicUsize::new(0);
+
+    /// Installs (or removes) a clock returning UTC unix time in nanoseconds.
+    pub fn set_clock(clock: Option<fn() -> i128>) {
+        CLOCK.store(clock.map(|f| f as usize).unwrap_or(0), Ordering::SeqCst);
+    }
+
+    pub(super) fn now() -> Option<OffsetDateTime> {
+        let clock = CLOCK.load(Ordering::SeqCst);
+        if clock == 0 {
+            return None;
+        }
+        // safety: the only non-zero values ever stored are `fn() -> i128` pointers.
+        let f: fn() -> i128 = unsafe { std::mem::transmute::<usize, fn() -> i128>(clock) };
+        OffsetDateTime::from_unix_timestamp_nanos(f()).ok()
+    }
+}
 pub use builder::{Builder, InitError};
 
 /// A file appender with the ability to rotate log files at a fixed schedule.
@@ -193,6 +219,8 @@ impl RollingFileAppender {
         } = builder;
         let directory = directory.as_ref().to_path_buf();
         let now = OffsetDateTime::now_utc();
+        #[cfg(feature = "verif-hooks")]
+        let now = verif::now().unwrap_or(now);
         let (state, writer) = Inner::new(
             now,
             rotation.clone(),
@@ -211,6 +239,11 @@ impl RollingFileAppender {
 
     #[inline]
     fn now(&self) -> OffsetDateTime {
+        #[cfg(feature = "verif-hooks")]
+        if let Some(now) = verif::now() {
+            return now;
+        }
+
         #[cfg(test)]
         return (self.now)();
 
